@@ -17,14 +17,23 @@ given, so a parsed Database is never shared).
       c11.elem.local_eq          getLocalEq chemical potentials (database order on both objects): unchanged
       c11.elem.interfacial       getInterfacialComposition over several Gibbs-Thomson values: [reference, solutes permuted]
       c11.elem.mobility          diffusion.computeMobility: mobilities / chemical potentials permuted, phases and fractions unchanged
-    Tolerance TOL_Q = 1e-8 relative to the array's own scale (max |entry|; for the driving force the scale is
+    Tolerance TOL_Q = 1e-6 relative to the array's own scale (max |entry|; for the driving force the scale is
     max(|dG|, R*T): dG is a difference of molar Gibbs energies of order 1e4..1e5 J/mol that passes through zero at the
-    solvus, its rounding/convergence noise is absolute ~1e-10 J/mol).  A result that is available on one object and
-    not on the other (None / -1 / exception) is a violation (clause 'availability'); both unavailable: counted.
+    solvus, its noise is absolute ~1e-10..1e-7 J/mol).  The differences between the two objects are NOT summation-order
+    rounding but convergence noise of pycalphad's local-equilibrium solver (the conditions are handed over in a different
+    order): typically 1e-14, but heavy tailed - worst seen over seeds 0,1,2,3,7 (quick) and 0,1 (thorough): 3.3e-9
+    (tracer / interdiffusivity, Ni-Cr-Al), i.e. >= 300x margin; DESIGN's 1e-8 rested on a 25-point probe and would leave
+    only 3x.  The weakest seeded break changes results by > 1e-3 (a point only counts when its arrays differ from their
+    own permutation by > 1e-3).  A result that is available on one object and not on the other (None / -1 / exception)
+    is a violation (clause 'availability'); both unavailable: counted.
       c11.elem.diffusion_profile / c11.elem.diffusion_time   single-phase and homogenization runs with permuted
                                  element lists (profiles, boundary conditions addressed by element name): same number of
                                  recorded steps, recorded times equal, recorded profiles equal after permuting rows, at
-                                 EVERY recorded step (TOL_Q, scale = largest composition).
+                                 EVERY recorded step (TOL_DIFF = 1e-7, scale = largest composition / last time; measured
+                                 worst 8e-11 time, 4e-11 profiles).  Flux conditions are inflow only and sized so that
+                                 compositions stay in the window: in the dilute corner (x clipped to 1e-8) the solver noise in
+                                 D reaches 1e-8 (measured).  Both members perform the same public call sequence
+                                 (setup, getFluxes, solve); the run length is not a whole number of initial steps.
 (2) phase order - two-/three-phase Al-Mg-Si precipitation runs with the precipitate list (model and backend) in
     every order; the backend is used memoryless (setThermodynamics(..., removeCache=True) semantics) because with cached
     composition sets the permuted per-step query sequence itself changes driving forces by ~1e-9 and nucleation rates
@@ -32,8 +41,14 @@ given, so a parsed Database is never shared).
     thorough tier and only recorded (worst 'observed_only_cached_*'), never asserted.
       c11.phase.steps       same number of steps (same logical cap)
       c11.phase.time_grid   same time grid      } compared step by step; the first diverging step index is reported
-      c11.phase.histories   all 16 histories equal after permuting the phase axis   } TOL_TRAJ = 1e-6 relative to the
-                            running maximum of the history (measured legitimate noise with memoryless backend: 0.0)
+      c11.phase.histories   all 16 histories equal after permuting the phase axis (one evaluation per history; a diverging
+                            pair is reported once, for the history that separates first; mech carries the step-size rules
+                            whose in-run oracle had already failed when the runs separated)
+                            Tolerance relative to the running maximum of the history: two phases 1e-6 (measured: bit-identical,
+                            two-term sums commute); three phases 1e-4: sums over three phases are not associative, the 1-ulp
+                            differences in the matrix composition come back from the equilibrium solver as ~5e-9 and are
+                            amplified where a driving force approaches zero (measured worst 2.1e-6 in Gcrit/impingement);
+                            seeded breaks move time grids and histories by 5e-2..6e-1.
 (3) direct permutation oracle on the step-size rules and the nucleation-site competition (a trajectory only exposes
     a rule while it is the binding one):
       c11.rule.psd / nucleation / temperature / rcrit / volume   Constraints.computeDTfrom*: result identical (1e-12) for
@@ -41,7 +56,7 @@ given, so a parsed Database is never shared).
                             model's own state at every step ('in_run')
       c11.rule.getdt        PrecipitateModel.getDt on models with permuted phases holding the same synthetic state
       c11.sites             PrecipitateModel._calcNucleationSites per phase (by name) on models with permuted phases:
-                            equal within 1e-12 of the site density scale (N0 of the site type + parent sites)
+                            equal within 1e-12 of the site density scale (largest site density N0 of the matrix, or the result itself)
 
 Not asserted: changing the reference (first) element; phase order in homogenization models; composition from the
 'sampling' method; cached-backend phase-order pairs; that any query succeeds (C03/C09/C12 own that).
@@ -108,8 +123,9 @@ MANIFEST = {
     'technique': 'differential / metamorphic monitor over paired executions (permuted vs. unpermuted configuration)',
 }
 
-TOL_Q = 1e-7
-TOL_TRAJ = 1e-6
+TOL_Q = 1e-6       # point queries: pycalphad solver-convergence noise has a heavy tail (see module docstring)
+TOL_DIFF = 1e-7    # diffusion runs
+TOL_TRAJ = {2: 1e-6, 3: 1e-4}    # by number of precipitate phases (see module docstring)
 TOL_RULE = 1e-12
 R_GAS = 8.314
 ACTIVE_DENSITY = 1e15
@@ -446,7 +462,7 @@ def _precip_cfg(rng, tier, k):
     cfg['iterator'] = 'rk4' if (tier == 'thorough' and k % 5 == 4) else 'euler'
     cons = {'dtScale': float(rng.choice([0.1, 0.3])), 'maxVolumeChange': float([1e-3, 1e-4, 2e-5][k % 3])}
     if rng.random() < 0.3:
-        cons[str(rng.choice(['checkPSD', 'checkNucleation', 'checkRcrit']))] = False
+        cons[str(rng.choice(['checkNucleation', 'checkRcrit']))] = False
     cfg['constraints'] = cons
     r = k % 4
     if r == 0:
@@ -512,11 +528,6 @@ def _eval_rules(cons, I, perm, dtPrev, dtMax, rules=RULES):
                                                  [I['growth'][j] for j in perm], I['VmAlpha'], [I['VmBeta'][j] for j in perm],
                                                  [I['GB'][j] for j in perm], names, dtMax)
     return {k: float(v) for k, v in out.items()}
-
-
-def _sub_input(I, j):
-    """the single-phase restriction of a rule input (used only to decide whether an input is non-trivial)"""
-    return [j]
 
 
 def _check_rules(R, cons, I, dtPrev, dtMax, source, detail, perms=None, count_nt=None, failed=None):
@@ -612,7 +623,7 @@ def _phase_run(cfg, R, in_run):
     return run, mon
 
 
-def _compare_histories(A, B, perm):
+def _compare_histories(A, B, perm, tol):
     """B's phase position j holds A's phase perm[j]. Returns per-history (worst rel, first diverging step or None)."""
     n = min(len(A['time']), len(B['time']))
     res = {}
@@ -627,7 +638,7 @@ def _compare_histories(A, B, perm):
         scale = np.maximum.accumulate(np.max(np.where(np.isfinite(a2), np.abs(a2), 0.0), axis=1)) + 1e-300
         d = np.max(np.where(fin, np.abs(a2 - b2), 0.0), axis=1) / scale
         d = np.where(patt, d, np.inf)
-        bad = np.nonzero(~(d <= TOL_TRAJ))[0]
+        bad = np.nonzero(~(d <= tol))[0]
         res[k] = (float(np.max(d)) if n else 0.0, int(bad[0]) if len(bad) else None)
     return res
 
@@ -643,7 +654,10 @@ def _run_precip(case, R):
         if R.inconclusive:
             return
         if runA.error is not None or runA.rejected:
-            R.inconclusive = 'base run failed: %r %s' % (runA.error, R.info.get('rejected'))
+            # that a configuration runs at all is C03's subject: counted, the case is not non-trivial
+            R.observe('base_run_failed')
+            R.info['base_run_error'] = '%r %s' % (runA.error, R.info.get('rejected'))
+            R.set_nontrivial(False)
             return
         A = precip.snapshot_histories(runA.model)
         active = [str(p) for j, p in enumerate(cfg['phases']) if np.max(A['precipitateDensity'][:, j]) >= ACTIVE_DENSITY]
@@ -683,7 +697,7 @@ def _run_precip(case, R):
             continue
         B = precip.snapshot_histories(runB.model)
         perm = list(order)
-        res = _compare_histories(A, B, perm)
+        res = _compare_histories(A, B, perm, TOL_TRAJ[P])
         if observe_only:
             for k, (w, first) in res.items():
                 R.worst('observed_only_cached_' + k, w if np.isfinite(w) else 1e300)
@@ -699,15 +713,22 @@ def _run_precip(case, R):
         mech0 = dict(mech0, in_run_rule_violations='+'.join(fired) if fired else 'none')
         R.check('c11.phase.steps', steps_ok, mech0, steps_A=len(A['time']) - 1, steps_B=len(B['time']) - 1, order=cfgB['phases'],
                 capped=(runA.capped, runB.capped))
+        det_common = {'order': cfgB['phases'], 'base_order': cfg['phases'], 'T': cfg['schedule']['T']}
+
+        def at_step(k, f):
+            return {'first_diverging_step': f, 'first_diverging_overall': first, 'A_at_step': np.asarray(A[k])[f],
+                    'B_at_step': np.asarray(B[k])[f], 't_A': A['time'][f], 't_B': B['time'][f], 'worst_rel': res[k][0]}
         for k, (w, f) in res.items():
-            R.worst('traj_' + k, w if np.isfinite(w) else 1e300)
-            mon = 'c11.phase.time_grid' if k == 'time' else 'c11.phase.histories'
-            det = {}
-            if f is not None:
-                a = np.asarray(A[k])[f]
-                det = {'first_diverging_step': f, 'first_diverging_overall': first, 'A_at_step': a,
-                       'B_at_step': np.asarray(B[k])[f], 't_A': A['time'][f], 't_B': B['time'][f], 'worst_rel': w}
-            R.check(mon, f is None, dict(mech0, history=k), order=cfgB['phases'], base_order=cfg['phases'], T=cfg['schedule']['T'], **det)
+            R.worst('traj%d_%s' % (P, k), w if np.isfinite(w) else 1e300)
+        wt, ft = res['time']
+        R.check('c11.phase.time_grid', ft is None, dict(mech0, history='time'), **det_common, **(at_step('time', ft) if ft is not None else {}))
+        # one evaluation per history; a diverging pair is reported once, for the history that separates first
+        div = sorted((f, k) for k, (w, f) in res.items() if f is not None and k != 'time')
+        R.count('c11.phase.histories', len(res) - 1 - (1 if div else 0))
+        if div:
+            f, k = div[0]
+            R.check('c11.phase.histories', False, dict(mech0, history=k), diverging_histories=[(kk, ff) for ff, kk in div],
+                    **det_common, **at_step(k, f))
         R.add_nontrivial('p-%d-%d-%s' % (case['seed'], case['k'], ''.join(str(j) for j in order)))
     R.observe('phase_order_pairs', npairs)
     R.set_nontrivial(False)
@@ -798,7 +819,9 @@ def _diffusion_run(cfg, order, duration):
     m.setup()
     _, dt0 = m.getFluxes()          # same public call sequence on both members of a pair (it fills the model's composition cache)
     if duration is None:
-        duration = float(dt0) * cfg['steps']
+        # not a whole number of (initially constant) steps: otherwise rounding noise of 1e-13 in the step size decides whether
+        # a last sliver step of ~1e-12*duration is needed (seen: 27 vs 28 steps)
+        duration = float(dt0) * (cfg['steps'] - 0.5)
         for e, bc in cfg['bc'].items():
             if bc['type'] == 'flux' and bc['value'] is None:
                 J = bc['amount'] * float(m.dz) / duration
@@ -846,7 +869,7 @@ def _run_diffusion(case, R):
     R.check('c11.elem.diffusion_time', len(ta) == len(tb) and capA == capB, dict(mech, clause='number_of_steps'),
             steps_A=len(ta) - 1, steps_B=len(tb) - 1, cfg=cfg)
     dts = np.abs(ta[:n] - tb[:n]) / max(float(np.max(np.abs(ta[:n]))), 1e-300)
-    bad = np.nonzero(~(dts <= TOL_Q))[0]
+    bad = np.nonzero(~(dts <= TOL_DIFF))[0]
     R.worst('diffusion_time', float(np.max(dts)))
     R.check('c11.elem.diffusion_time', len(bad) == 0, dict(mech, clause='time_grid'), first_diverging_step=int(bad[0]) if len(bad) else None,
             t_A=ta[bad[0]] if len(bad) else None, t_B=tb[bad[0]] if len(bad) else None, cfg=cfg)
@@ -855,7 +878,7 @@ def _run_diffusion(case, R):
     dev = np.max(np.abs(xa[:n] - xbm).reshape(n, -1), axis=1) / scale
     finite = np.all(np.isfinite(xa[:n]).reshape(n, -1) == np.isfinite(xbm).reshape(n, -1), axis=1)
     dev = np.where(finite & np.isfinite(dev), dev, np.inf)
-    bad = np.nonzero(~(dev <= TOL_Q))[0]
+    bad = np.nonzero(~(dev <= TOL_DIFF))[0]
     R.worst('diffusion_profile', float(np.max(dev)) if np.all(np.isfinite(dev)) else 1e300)
     R.count('c11.elem.diffusion_profile', max(n - 1, 0))
     R.check('c11.elem.diffusion_profile', len(bad) == 0, dict(mech, clause='profiles'),
@@ -1060,14 +1083,20 @@ def _synthetic_distribution(rng, pbm, n0_scale):
     return x / max(x.sum(), 1e-300) * n0_scale
 
 
-def _site_scale(model, j):
-    """density scale of the site balance of phase j: N0 of its site type plus the parent-surface sites"""
-    from kawin.Constants import AVOGADROS_NUMBER
+def _site_n0(model, j):
+    """N0 of the site type of phase j (used to size the synthetic distributions)"""
     ns = model.matrixParameters.nucleationSites
     name = model.precipitateParameters[j].nucleation.description.name
     n0 = {'BULK': ns.bulkN0, 'DISLOCATIONS': ns.dislocationN0, 'GRAIN BOUNDARIES': ns.GBareaN0, 'GRAIN EDGES': ns.GBedgeN0,
           'GRAIN CORNERS': ns.GBcornerN0}[name]
     return float(abs(n0))
+
+
+def _site_scale(model):
+    """density scale of the site balance (N0 - used + parent sites): the largest site density of the matrix, whichever
+    branch the balance takes (the result is a difference, so its rounding noise is relative to the minuend)"""
+    ns = model.matrixParameters.nucleationSites
+    return float(max(abs(ns.bulkN0), abs(ns.dislocationN0), abs(ns.GBareaN0), abs(ns.GBedgeN0), abs(ns.GBcornerN0)))
 
 
 def _run_sites(case, R):
@@ -1083,7 +1112,8 @@ def _run_sites(case, R):
             R.observe('rejected_site_config')
             continue
         # distributions by phase name; amounts comparable to the site densities so that competition matters
-        scales = {p: _site_scale(base, j) for j, p in enumerate(names)}
+        scales = {p: _site_n0(base, j) for j, p in enumerate(names)}
+        big = _site_scale(base)
         dist = {}
         for j, p in enumerate(names):
             r1 = float(np.mean(base.PBM[j].PSDsize))
@@ -1119,8 +1149,7 @@ def _run_sites(case, R):
                 if st == 'exc':
                     R.exception('c11.sites', v, dict(mech, clause='permuted_order_raised'), spec=spec, order=order, phase=p)
                     continue
-                par = 0.0
-                scale = max(abs(ref[p]), abs(v), scales[p], 1e-300)
+                scale = max(abs(ref[p]), abs(v), big, 1e-300)
                 rel = abs(ref[p] - v) / scale
                 R.worst('sites', rel)
                 R.check('c11.sites', rel <= TOL_RULE, mech, identity_order=ref[p], permuted_order=v, order=order, phase=p, spec=spec,
@@ -1207,7 +1236,21 @@ def _run_getdt(case, R):
             dt1 = rb[0]
             rel = 0.0 if dt0 == dt1 else abs(dt0 - dt1) / max(abs(dt0), abs(dt1), 1e-300)
             R.worst('getdt', rel if np.isfinite(rel) else 1e300)
-            R.check('c11.rule.getdt', np.isfinite(rel) and rel <= TOL_RULE, mech, identity_order=dt0, permuted_order=dt1, order=list(order),
+            ok = bool(np.isfinite(rel) and rel <= TOL_RULE)
+            if not ok:
+                # attribution (failure path only): which public rules are order dependent on this very state
+                try:
+                    I0 = _phase_inputs_from_model(m0)
+                    dtp = 0.01 if n == 0 else float(st['time'][n] - st['time'][n - 1])
+                    b0 = _eval_rules(m0.constraints, I0, list(range(P)), dtp, final - st['time'][n])
+                    dep = set()
+                    for pp_ in list(itertools.permutations(range(P)))[1:]:
+                        b1 = _eval_rules(m0.constraints, I0, list(pp_), dtp, final - st['time'][n])
+                        dep |= {k for k in RULES if b0[k] != b1[k]}
+                    mech = dict(mech, order_dependent_rules='+'.join(sorted(dep)) if dep else 'none')
+                except Exception:
+                    mech = dict(mech, order_dependent_rules='unknown')
+            R.check('c11.rule.getdt', ok, mech, identity_order=dt0, permuted_order=dt1, order=list(order),
                     spec=spec, n=n, state={p: {k: v for k, v in per[p].items() if k not in ('psd', 'growth')} for p in names}, final=final)
         R.observe('getdt_inputs')
         # non-trivial: some rule limits the step and the single-rule limits differ between phases
